@@ -219,6 +219,16 @@ class ErrDomain:
                 out.append((arm, sa))
         return out
 
+    def _status_const(self, lhs, rhs):
+        """a plain int variable receiving a constant: FAILED for a non-zero one, OK for zero (a status variable being set)"""
+        l = strip(lhs)
+        if l.get("kind") not in ("DeclRefExpr", "VarDecl") or qtype(l).replace("const ", "") != "int":
+            return None
+        v = ConstEval(self.prog).try_eval(strip(rhs, casts=True))
+        if v is None:
+            return None
+        return FAILED if v != 0 else OK
+
     def _const_fact(self, s, lhs_text, rhs):
         """`p = NULL` / `p = MAP_FAILED`: remember `p == <that>` as a path fact (a later test of p then knows its way)"""
         if is_null(self.prog, rhs) or is_map_failed(self.prog, rhs):
@@ -258,6 +268,10 @@ class ErrDomain:
                 src = self.key_of(init[-1])
                 if src and src in s:
                     s["v:" + vd["id"]] = s[src]
+                elif self._status_const(vd, init[-1]) is not None:
+                    s["v:" + vd["id"]] = self._status_const(vd, init[-1])
+                elif is_map_failed(self.prog, init[-1]) or (is_null(self.prog, init[-1]) and "*" in qtype(vd)):
+                    s["v:" + vd["id"]] = FAILED        # a result variable that starts out as the failure value
         return s
 
     def eval_cond(self, e, s):
@@ -311,7 +325,8 @@ class ErrDomain:
                     if ckc:
                         self.report("CHK", e0, "result of %s() is combined by `%s` with another value before it is compared with its failure value"
                                     % (ckc[0], e0.get("opcode")))
-            s = self.eval(rhs, s, consumer="assign" if fl is None else "flagged")
+            plain_copy = e0.get("opcode") == "=" and strip(rhs, casts=True).get("kind") == "DeclRefExpr"
+            s = self.eval(rhs, s, consumer="assign" if (fl is None and not plain_copy) else "flagged")
             lk = self.key_of(lhs)
             if s is None:
                 return None
@@ -350,6 +365,8 @@ class ErrDomain:
                                         % (s[rk].callee, fld))
                     elif is_map_failed(self.prog, rhs) or (lk in s and is_null(self.prog, rhs) and "*" in qtype(strip(lhs))):
                         s[lk] = FAILED
+                    elif self._status_const(lhs, rhs) is not None:
+                        s[lk] = self._status_const(lhs, rhs)
                     elif lk in s:
                         del s[lk]
             if e0.get("opcode") == "=":
@@ -360,7 +377,14 @@ class ErrDomain:
             return s
         if k == "CallExpr":
             ck = self._call_kind(e0)
-            for a in call_args(e0):
+            pt = passthrough_params(self.prog, callee_name(e0)) if callee_name(e0) in self.prog.functions else ()
+            for ai, a in enumerate(call_args(e0)):
+                if ai in pt and ck:
+                    # the callee returns this status (or a failure of its own): the result of the call stands for it
+                    ak = self.key_of(a)
+                    if ak and isinstance(s.get(ak), U):
+                        s[ak] = OK
+                        continue
                 s = self.eval(a, s, consumer="arg")
             if s is not None and callee_name(e0) in self.noreturn:
                 self.exits.append((e0, dict(s)))
@@ -484,6 +508,13 @@ class ErrDomain:
                 if (tr and "!(" + txt + ")" in ff) or (not tr and txt in ff):
                     s.pop("__failed", None)
                     s.pop("__ffacts", None)
+            if not any(c.get("kind") == "CallExpr" for c in walk(strip(e))):
+                # the outcome of the test is a path fact like any other
+                txt, tr = self._canon(e, truth)
+                fact = txt if tr else "!(" + txt + ")"
+                s["__facts"] = s.get("__facts", frozenset()) | {fact}
+                if s.get("__failed"):
+                    s["__ffacts"] = s.get("__ffacts", frozenset()) | {fact}
             return s
         txt, truth = self._canon(e, truth)
         return self._assume_fact(s, e, txt, truth)
@@ -688,15 +719,105 @@ def internal_summaries(prog):
     return out
 
 
+class PartDomain:
+    """Disjunctive wrapper around ErrDomain: the state is {failure tag: sub-state}, so the paths on which some call failed are
+    carried apart from the paths on which none did (and apart from each other per failing call).  What a status variable holds
+    on a failed path is then not blurred by the paths that did not fail."""
+
+    def __init__(self, inner):
+        self.i = inner
+
+    def _norm(self, subs):
+        out = {}
+        for s in subs:
+            if s is None:
+                continue
+            t = s.get("__failed")
+            out[t] = self.i.join(out[t], s) if t in out else s
+        return out or None
+
+    def _map(self, fn, S):
+        if S is None:
+            return None
+        return self._norm([fn(s) for s in S.values()])
+
+    def copy(self, S):
+        return {t: self.i.copy(s) for t, s in S.items()}
+
+    def join(self, A, B):
+        return self._norm(list(A.values()) + list(B.values()))
+
+    def equal(self, A, B):
+        return set(A) == set(B) and all(self.i.equal(A[t], B[t]) for t in A)
+
+    def widen(self, O, N):
+        return N
+
+    def decl(self, vd, S):
+        return self._map(lambda s: self.i.decl(vd, s), S)
+
+    def eval(self, e, S):
+        return self._map(lambda s: self.i.eval(e, s), S)
+
+    def eval_cond(self, e, S):
+        return self._map(lambda s: self.i.eval_cond(e, s), S)
+
+    def eval_ret(self, e, S):
+        return self._map(lambda s: self.i.eval_ret(e, s), S)
+
+    def assume(self, e, truth, S):
+        return self._map(lambda s: self.i.assume(e, truth, s), S)
+
+    def ret(self, n, S):
+        for s in S.values():
+            self.i.ret(n, s)
+
+
+_PT_MEMO = {}
+
+
+def passthrough_params(prog, gname):
+    """indices of the int parameters a library function hands back unchanged: some return is exactly that parameter, the
+    parameter is never assigned, and every other return is a non-zero constant (a failure of the function's own).  The result
+    of such a call is a success only if the argument was: the status travels through."""
+    key = (id(prog), gname)
+    if key in _PT_MEMO:
+        return _PT_MEMO[key]
+    out = set()
+    g = prog.lib_functions().get(gname)
+    if g is not None and prog.body(g) is not None:
+        ce = ConstEval(prog)
+        ps = prog.params(g)
+        rets = [m for m in walk(prog.body(g)) if m.get("kind") == "ReturnStmt" and kids(m)]
+        for i, p in enumerate(ps):
+            if qtype(p).replace("const ", "") != "int":
+                continue
+            assigned = any(m.get("kind") in ("BinaryOperator", "CompoundAssignOperator", "UnaryOperator") and
+                           m.get("opcode", "") in ("=", "+=", "-=", "|=", "&=", "^=", "++", "--", "&") and
+                           strip(kids(m)[0], casts=True).get("kind") == "DeclRefExpr" and
+                           (strip(kids(m)[0], casts=True).get("referencedDecl") or {}).get("id") == p["id"]
+                           for m in walk(prog.body(g)))
+            if assigned:
+                continue
+            same = [r for r in rets if strip(kids(r)[0], casts=True).get("kind") == "DeclRefExpr" and
+                    (strip(kids(r)[0], casts=True).get("referencedDecl") or {}).get("id") == p["id"]]
+            others = [r for r in rets if r not in same]
+            if same and all((ce.try_eval(strip(kids(r)[0], casts=True)) or 0) != 0 for r in others):
+                out.add(i)
+    _PT_MEMO[key] = out
+    return out
+
+
 def analyse_function(prog, fname, kinds, report, noreturn=()):
     f = prog.fn(fname)
     dom = ErrDomain(prog, fname, f, kinds, report)
     if noreturn:
         dom.noreturn = frozenset(dom.noreturn | set(noreturn))
-    fl = Flow(dom)
-    end = fl.function(prog, f, {})
+    fl = Flow(PartDomain(dom))
+    end = fl.function(prog, f, {None: {}})
     if end is not None:
-        dom.rets.append((f, end))
+        for s in end.values():
+            dom.rets.append((f, s))
     return dom
 
 
@@ -1026,7 +1147,16 @@ class ResDomain:
             a = self._acq(init[-1])
             if a:
                 s["v:" + vd["id"]] = (a[0], a[1], "maybe")
+                self._carry(s, "v:" + vd["id"], a)
         return s
+
+    def _carry(self, s, key, a):
+        """fdopen(fd, ...) takes the descriptor over if it succeeds; if it fails the descriptor is still the caller's"""
+        s.pop("carry:" + key, None)
+        if a[0] == "fdopen" and call_args(a[1]):
+            fk = self.key_of(call_args(a[1])[0])
+            if fk and fk in s:
+                s["carry:" + key] = (fk, s.pop(fk))
 
     def eval_cond(self, e, s): return self.eval(e, s)
     def eval_ret(self, e, s): return self.eval(e, s)
@@ -1043,6 +1173,7 @@ class ResDomain:
             if lk:
                 if a:
                     s[lk] = (a[0], a[1], "maybe")
+                    self._carry(s, lk, a)
                 else:
                     rk = self.key_of(ks[1])
                     if rk and rk in s and rk != lk:
@@ -1074,14 +1205,18 @@ class ResDomain:
         a, op, b = self.inner._atom_parts(e)
         for x, other, swapped in ((a, b, False),) + (((b, a, True),) if b is not None else ()):
             key = self.key_of(x)
-            if key and key in s:
+            if key and key in s and not key.startswith("carry:"):
                 cal, node, st = s[key]
                 u = U(self.acq[cal][1], cal, node)
                 failed = self.inner._failed_when(u, op, other, truth, swapped)
                 if failed is True:
                     del s[key]
+                    c = s.pop("carry:" + key, None)
+                    if c:
+                        s[c[0]] = c[1]          # the stream was not created: the descriptor is ours again
                 elif failed is False:
                     s[key] = (cal, node, "open")
+                    s.pop("carry:" + key, None)
                 return s
         return s
 
@@ -1116,7 +1251,10 @@ def pair_rule(chk, prog, fnames, rule="PAIR", units_prefix="src/"):
         leaks = {}
         for r, s in dom.rets:
             rk = dom.key_of(kids(r)[0]) if kids(r) else None
-            for k, (cal, node, st) in s.items():
+            for k, ent in s.items():
+                if k.startswith("carry:"):
+                    continue
+                cal, node, st = ent
                 if k == rk or k in escapes or k.startswith("m:") or k.startswith("d:"):
                     continue        # returned, stored into the instance, or handed to the caller through an out-parameter
                 if st in ("open",) or (st == "maybe" and False):
